@@ -140,6 +140,11 @@ def inputs_for(name, rnd, nmut):
                 else:
                     m[i] = rnd.choice([0, 1, 2, 3, 4, 5, 0x30, 0x31, 0x80, 0x81, 0xa0, 0xff])
                 outs.append((codec, m, 'mutation'))
+            if nmut > 100:
+                # thorough: every single bit flip, deletion, insertion, replacement and truncation as well
+                from .c08 import mutations
+                for m in mutations(w, rnd, 10 ** 9):
+                    outs.append((codec, m, 'mutation'))
     # members in the wrong place: missing mandatory, duplicated, surplus
     return outs
 
@@ -187,8 +192,13 @@ def run_type(job):
 
 
 def run(ctx):
-    nmut = 6 if ctx.quick else 40
-    traces = core.pmap(run_type, [(n, ctx.seed * 1000 + i, nmut) for i, n in enumerate(sorted(TYPES))], procs=6, chunksize=1)
+    nmut = 25 if ctx.quick else 120
+    whole = core.pmap(run_type, [(n, ctx.seed * 1000 + i, nmut) for i, n in enumerate(sorted(TYPES))], procs=6, chunksize=1)
+    # one trace record per 2000 events, so that the acceptor can take them in bounded runs
+    traces = []
+    for t in whole:
+        for k in range(0, max(len(t['ev']), 1), 2000):
+            traces.append(dict(t, id=t['id'] * 1000 + k // 2000, ev=t['ev'][k:k + 2000]))
     with tlc.Scratch('c10') as sc:
         lt = next(t for t in traces if t['name'] == 'list')
         good = next(e for e in lt['ev'] if e['st'] == 'ok' and e['proj'] == 'ok' and e['redec_st'] == 'ok' and e['v']['es'])
